@@ -473,6 +473,15 @@ class CallMixin:
             return self.user_call(cid, at, self.tyof(n))
         if op == '()' and f0 == 'rec' and t0.strip_ref().name == 'std::random_device':
             return 'cxx_nondet_u32()'
+        if op == '()' and (f0 == 'rng' or (f0 == 'rec' and t0.strip_ref().name in ('std::mt19937_64', 'std::mt19937'))):
+            # PRNG engines and distributions are opaque: a draw is ANY value of the result type (over-approximation)
+            rc = self.ctype(self.tyof(n).strip_ref())
+            fnm = {'uint64_t': 'cxx_nondet_u64', 'uint32_t': 'cxx_nondet_u32', 'int': 'cxx_nondet_int'}.get(rc)
+            if fnm is None:
+                raise LoweringError(f'random draw of type {rc}')
+            for a in args[1:]:
+                self.ex(a)
+            return f'{fnm}()'
         if op == '[]':
             o = self.ex(args[0])
             i = self.ex(args[1])
@@ -689,6 +698,13 @@ class CallMixin:
         args = [a for a in n.get('inner', []) if a.get('kind') != 'CXXDefaultArgExpr']
         if fam == 'rec':
             return self.construct_rec(t, n, args)
+        if fam == 'rng':
+            for a in args:
+                if self.has_side_effects(a):
+                    if self.cond_depth:
+                        raise LoweringError('PRNG constructed in a conditional operand')
+                    self.pre.append(f'(void)({self.ex(a)});')   # arguments are evaluated (for their effects) and dropped
+            return '((cxx_rng){0})'
         if not args:
             if fam == 'array':
                 return None   # uninitialised (trivial default ctor)
